@@ -5,6 +5,6 @@ here="$(cd "$(dirname "$0")/.." && pwd)"
 cd "$here"
 for s in "$@"; do
   echo "== $s" >> $log
-  timeout 5000 tools/benign_eval.py --all-mapped benign/$s ${s%%-*} < /dev/null 2>&1 | tail -14 >> $log
+  timeout 5000 nice -n 19 tools/benign_eval.py $BENIGN_FLAGS benign/$s ${s%%-*} < /dev/null 2>&1 | tail -14 >> $log
 done
 echo DONE >> $log
